@@ -63,23 +63,23 @@ Theorem rotmat_orthogonal i j : (i < 3)%nat -> (j < 3)%nat ->
   rowdot Rm i j = if (i =? j)%nat then s2 * s2 else 0.
 Proof.
   intros Hi Hj. destruct i as [|[|[|i]]]; [| | |lia]; destruct j as [|[|[|j]]]; try lia;
-  unfold rowdot, ent, rotmat; cbn [nth Nat.eqb nadd nsub nmul nofZ NumR]; ring.
+  unfold rowdot, ent, rotmat; cbv zeta; cbn [nth Nat.eqb nadd nsub nmul nofZ NumR]; ring.
 Qed.
 
 Theorem rotmat_det :
   ent Rm 0 0 * (ent Rm 1 1 * ent Rm 2 2 - ent Rm 1 2 * ent Rm 2 1)
   - ent Rm 0 1 * (ent Rm 1 0 * ent Rm 2 2 - ent Rm 1 2 * ent Rm 2 0)
   + ent Rm 0 2 * (ent Rm 1 0 * ent Rm 2 1 - ent Rm 1 1 * ent Rm 2 0) = s2 * s2 * s2.
-Proof. unfold ent, rotmat; cbn [nth nadd nsub nmul nofZ NumR]; ring. Qed.
+Proof. unfold ent, rotmat; cbv zeta; cbn [nth nadd nsub nmul nofZ NumR]; ring. Qed.
 
 (* the axis (b,c,d) is fixed (row vector times matrix) *)
 Theorem rotmat_fixes_axis j : (j < 3)%nat ->
   b * ent Rm 0 j + c * ent Rm 1 j + d * ent Rm 2 j = s2 * nth j [b; c; d] 0.
-Proof. intros Hj. destruct j as [|[|[|j]]]; [| | |lia]; unfold ent, rotmat; cbn [nth nadd nsub nmul nofZ NumR]; ring. Qed.
+Proof. intros Hj. destruct j as [|[|[|j]]]; [| | |lia]; unfold ent, rotmat; cbv zeta; cbn [nth nadd nsub nmul nofZ NumR]; ring. Qed.
 
 (* trace = 1 + 2 cos(theta) for a = cos(theta/2), |(b,c,d)| = sin(theta/2) *)
 Theorem rotmat_trace : ent Rm 0 0 + ent Rm 1 1 + ent Rm 2 2 = 3 * (a * a) - (b * b + c * c + d * d).
-Proof. unfold ent, rotmat; cbn [nth nadd nsub nmul nofZ NumR]; ring. Qed.
+Proof. unfold ent, rotmat; cbv zeta; cbn [nth nadd nsub nmul nofZ NumR]; ring. Qed.
 End Rot.
 
 (* ---------- the mirror matrix I - 2 u u^T ---------- *)
